@@ -21,6 +21,31 @@ Theorem C01_expand_surfs_den : forall sigma cden matching (t : tree msurf) n t' 
 Proof. exact expand_den. Qed.
 Print Assumptions C01_expand_surfs_den.
 
+From T4V Require Import C01.ProofsT4 C01.ProofsCells C01.ProofsExpand.
+
+(* pot_expand_surfs, the error branch characterised instead of assumed: the
+   expansion succeeds exactly when no surface leaf is in error, and otherwise
+   raises the error of the FIRST offending leaf (left to right): EKey = surface
+   not in `matching` (KeyError), EFacet = facet number above the number of facets
+   (CellConversionError), EIndex = facet number so small that Python's negative
+   index leaves the list (IndexError).  A facet number 0 is not an error: it
+   selects the last facet (Python index -1), which is why C01_expand_surfs_den
+   asks for facets >= 1. *)
+Theorem C01_expand_surfs_errors : forall matching (t : tree msurf) n,
+  match expand matching t n with
+  | Ok _ => first_err matching (all_leaves t) = None
+  | Err e => first_err matching (all_leaves t) = Some e
+  end.
+Proof. exact expand_err. Qed.
+Print Assumptions C01_expand_surfs_errors.
+
+Theorem C01_expand_surfs_facet0 : forall matching s ids n,
+  lookup (Z.abs s) matching = Some ids -> ids <> [] ->
+  exists x, nth_error ids (length ids - 1) = Some x /\
+            expand_leaf matching (s, Some 0) n = Ok (Leaf (signed s x), n).
+Proof. exact expand_facet0. Qed.
+Print Assumptions C01_expand_surfs_facet0.
+
 (* pot_optimise: flattening and pruning keep the region; None only for a region
    that is empty for every sense assignment *)
 Theorem C01_optimise_den : forall sigma cden (t : tree Z),
@@ -171,6 +196,99 @@ Proof.
            Hnd Hle Hrun rn skipped d' Hpr Hresp Hskip c Hown Huniq).
 Qed.
 Print Assumptions C01_partition.
+
+From Coq Require Import Reals.
+From T4V Require Import C01.ProofsPoints.
+
+(* THE PROPERTY for points of R^3.  Surfaces are ANY family of real functions
+   fval : id -> point -> R (PLUS s = {fval s > 0}, MINUS s = {fval s < 0}); the two
+   helper planes are x - 1 and x + 1 (PLANEX 1, PLANEX -1 as construct_volume_t4
+   inserts them); surfaces merged by the de-duplication are the same function.
+   Membership of a point in a written volume is Pin (EQUA / UNION / INTE read
+   directly on the table, no Booleans; ProofsPoints.v shows Pin = Vden at the sense
+   assignment of the point).  For every point p off every surface: if MCNP cell c
+   owns p and no other converted cell contains p, then p lies in exactly one
+   written non-FICTIVE volume, numbered c, when c has non-zero importance, and in
+   none otherwise.  The consistency of the helper planes and the equality of
+   senses of merged surfaces are now PROVED (sigma_consistent, sigma_respects),
+   not assumed. *)
+Theorem C01_partition_points :
+  forall (fval : Z -> point -> R) (u0 u1 : Z),
+  (forall p, fval u0 p = (px p - 1)%R) -> (forall p, fval u1 p = (px p + 1)%R) ->
+  forall (cden : point -> Z -> bool) cells matching fuel todo cnt0 s' rn skipped d' p c,
+  0 < u0 -> 0 < u1 -> off_surfaces fval p ->
+  (forall c g orig, lookup c cells = Some (g, orig) ->
+     leaves_ok (msurf_ok matching) g /\
+     cden p c = mden (sigma_of fval p) (cden p) matching g) ->
+  NoDup todo -> (forall k, In k todo -> k <= cnt0) ->
+  convert_cells fuel cells matching u0 u1 todo (mkSt cnt0 [] [] []) = Ok s' ->
+  prune u0 u1 rn (vols s') = Ok d' ->
+  (forall r, rn = Some r -> merged_equal fval r) ->
+  (forall k, In k skipped -> k <= cnt0 /\ ~ In k todo) ->
+  cden p c = true -> (forall c', In c' todo -> cden p c' = true -> c' = c) ->
+  (In c todo -> forall k, pt_in fval (written skipped d') p k <-> k = c) /\
+  (~ In c todo -> forall k, ~ pt_in fval (written skipped d') p k).
+Proof. intros fval u0 u1 Hh0 Hh1. exact (partition_points fval u0 u1 Hh0 Hh1). Qed.
+Print Assumptions C01_partition_points.
+
+From T4V Require Import C01.Printer C01.ProofsPrinter C01.ProofsFile.
+
+(* the printer (VolumeT4.__str__ + the writer's VOLU loop, as token lines) and a
+   reader of such lines: a printed volume without None operand reads back as
+   itself with PLUS/MINUS sorted and duplicate free *)
+Theorem C01_print_read : forall k v, ops_ok (v_ops v) = true ->
+  read_line (print_line k v) =
+  Some (k, mkVol (canon (v_plus v)) (canon (v_minus v)) (v_ops v) [] (v_fict v)).
+Proof. exact read_line_print. Qed.
+Print Assumptions C01_print_read.
+
+(* THE PROPERTY about the printed VOLU lines: every line is readable, and the
+   partition statement holds of the table the reader returns *)
+Theorem C01_partition_file :
+  forall sigma cden cells matching u0 u1 fuel todo cnt0 s' rn skipped d' c,
+  0 < u0 -> 0 < u1 -> consistent sigma u0 u1 ->
+  (forall c g orig, lookup c cells = Some (g, orig) ->
+     leaves_ok (msurf_ok matching) g /\ cden c = mden sigma cden matching g) ->
+  NoDup todo -> (forall k, In k todo -> k <= cnt0) ->
+  convert_cells fuel cells matching u0 u1 todo (mkSt cnt0 [] [] []) = Ok s' ->
+  prune u0 u1 rn (vols s') = Ok d' ->
+  (forall r, rn = Some r -> respects sigma r) ->
+  (forall k, In k skipped -> k <= cnt0 /\ ~ In k todo) ->
+  cden c = true -> (forall c', In c' todo -> cden c' = true -> c' = c) ->
+  exists T, read_table (print_table skipped d') = Some T /\
+            (In c todo -> forall k, in_volume sigma T k <-> k = c) /\
+            (~ In c todo -> forall k, ~ in_volume sigma T k).
+Proof.
+  intros sigma cden cells matching u0 u1 fuel todo cnt0 s' rn skipped d' c
+         H0 H1 Hc Hok Hnd Hle Hrun Hpr Hresp Hskip Hown Huniq.
+  exact (file_partition sigma cden cells matching u0 u1 H0 H1 Hc Hok fuel todo cnt0 s'
+           Hnd Hle Hrun rn skipped d' Hpr Hresp Hskip c Hown Huniq).
+Qed.
+Print Assumptions C01_partition_file.
+
+(* END TO END: points of R^3 (any surface functions, helper planes x-1 and x+1,
+   merged surfaces equal) against the printed VOLU lines read back: a point off
+   every surface owned by cell c lies in exactly one read-back non-FICTIVE volume,
+   numbered c, when c has non-zero importance, and in none otherwise *)
+Theorem C01_partition_file_points :
+  forall (fval : Z -> point -> R) (u0 u1 : Z),
+  (forall p, fval u0 p = (px p - 1)%R) -> (forall p, fval u1 p = (px p + 1)%R) ->
+  forall (cden : point -> Z -> bool) cells matching fuel todo cnt0 s' rn skipped d' p c,
+  0 < u0 -> 0 < u1 -> off_surfaces fval p ->
+  (forall c g orig, lookup c cells = Some (g, orig) ->
+     leaves_ok (msurf_ok matching) g /\
+     cden p c = mden (sigma_of fval p) (cden p) matching g) ->
+  NoDup todo -> (forall k, In k todo -> k <= cnt0) ->
+  convert_cells fuel cells matching u0 u1 todo (mkSt cnt0 [] [] []) = Ok s' ->
+  prune u0 u1 rn (vols s') = Ok d' ->
+  (forall r, rn = Some r -> merged_equal fval r) ->
+  (forall k, In k skipped -> k <= cnt0 /\ ~ In k todo) ->
+  cden p c = true -> (forall c', In c' todo -> cden p c' = true -> c' = c) ->
+  exists T, read_table (print_table skipped d') = Some T /\
+            (In c todo -> forall k, pt_in fval T p k <-> k = c) /\
+            (~ In c todo -> forall k, ~ pt_in fval T p k).
+Proof. exact file_partition_points. Qed.
+Print Assumptions C01_partition_file_points.
 
 (* non-vacuity: five cells (three converted, one of importance 0, one filler kept
    by reference), a union without pure-intersection member, a surface of
